@@ -136,7 +136,10 @@ type ccc struct {
 	refreshes int
 	grown     int
 	pendingUp []*csc // created and not yet brought up (scheduled programs)
-	states    []connectivity.State
+	// noRefreshAfterSwap (scheduled program sched-refresh): every call of the program was started before any take-over, so
+	// after a take-over no completion can justify another replacement ("that call started after the channel's last response")
+	noRefreshAfterSwap bool
+	states             []connectivity.State
 }
 
 func gid() uint64 {
@@ -183,6 +186,9 @@ func (c *ccc) NewSubConn(a []resolver.Address, o balancer.NewSubConnOptions) (ba
 		if v, ok := c.doneConn.Load(gid()); ok {
 			sc.slot = v.(*csc).slot
 			c.pending[sc.slot]++
+			if c.noRefreshAfterSwap && c.swaps > 0 {
+				c.violate("C07", "[stale-refresh-decision] a replacement connection was created for channel %d after its refresh had concluded, by the completion of a call that was started before the take-over (the decision was taken before the balancer lock was free and not taken again under it)", sc.slot)
+			}
 			if c.pending[sc.slot] > 1 {
 				c.violate("C07", "a second replacement connection was created for channel %d while its refresh is still in progress (%d pending)", sc.slot, c.pending[sc.slot])
 			}
